@@ -376,6 +376,10 @@ type c13forcedResult struct {
 
 type c13streamJob struct {
 	Progs      []c13prog `json:"progs"`
+	// texts that do not parse (every byte prefix of the corpus programs, damaged first tokens):
+	// run once each AFTER the reference results of Progs were taken, then everything is run
+	// again - a parse must not depend on which parses failed before it
+	Failing []c13prog `json:"failing,omitempty"`
 	Goroutines int       `json:"goroutines"`
 	Iterations int       `json:"iterations"`
 	Seed       int64     `json:"seed"`
@@ -554,6 +558,30 @@ func c13stream(job *c13streamJob) *c13streamResult {
 	for i, p := range job.Progs {
 		seq[i] = c13run("prog", p, shared, nil)
 	}
+	// history pass (one goroutine): the failing texts, then every text again
+	ffirst := make([]c13obs, len(job.Failing))
+	for i, p := range job.Failing {
+		ffirst[i] = c13run("prog", p, shared, nil)
+		res.Parses++
+	}
+	for round := 0; round < 2 && len(job.Failing) > 0; round++ {
+		for i, p := range job.Progs {
+			if o := c13run("prog", p, shared, nil); o != seq[i] && len(res.Diffs) < 5 {
+				res.Diffs = append(res.Diffs, c13diff{"history", p, seq[i], o})
+			}
+			res.Parses++
+		}
+		for i, p := range job.Failing {
+			if o := c13run("prog", p, shared, nil); o != ffirst[i] && len(res.Diffs) < 5 {
+				res.Diffs = append(res.Diffs, c13diff{"history", p, ffirst[i], o})
+			}
+			res.Parses++
+		}
+	}
+	// the failing texts take part in the concurrent phase as well
+	all := append(append([]c13prog{}, job.Progs...), job.Failing...)
+	seq = append(seq, ffirst...)
+	job = &c13streamJob{Progs: all, Goroutines: job.Goroutines, Iterations: job.Iterations, Seed: job.Seed}
 	var mu sync.Mutex
 	var wg sync.WaitGroup
 	allIDs := map[string]int{}
@@ -1026,6 +1054,11 @@ func c13runStream(c *Ctx, bin string, job c13streamJob, mode string) {
 	for _, d := range out.Stream.Diffs {
 		dd := desc
 		dd.Stream = &c13streamJob{Goroutines: job.Goroutines, Iterations: job.Iterations, Seed: job.Seed, Progs: []c13prog{d.Prog}}
+		if d.Kind == "history" {
+			dd.Note = fmt.Sprintf("first err=%q, after other (failing) parses err=%q", d.Want.Err, d.Got.Err)
+			c.Violate("history-result-differs", "one goroutine: a text gave a different tree/error/value after other texts had failed to parse than the first time", dd)
+			continue
+		}
 		dd.Note = fmt.Sprintf("alone err=%q, concurrently err=%q", d.Want.Err, d.Got.Err)
 		c.Violate("concurrent-result-differs", fmt.Sprintf("with %d goroutines a text gave a different tree/error/value than alone", job.Goroutines), dd)
 	}
@@ -1212,6 +1245,37 @@ func c13streamPool(seed int64, n int) []c13prog {
 	return pool
 }
 
+// c13failingPool: every proper byte prefix of the corpus programs that does not parse (texts ending
+// inside a condition, a block, a literal, a string ..), texts whose FIRST token already fails, and
+// one-token damages; deduplicated, parsed with and without provider alternately.
+func c13failingPool(limit int) []c13prog {
+	seen := map[string]bool{}
+	var res []c13prog
+	add := func(t string) {
+		if seen[t] || len(res) >= limit {
+			return
+		}
+		seen[t] = true
+		if _, err := parser.Parse("probe", t); err == nil {
+			return
+		}
+		res = append(res, c13prog{Src: t, RP: len(res)%2 == 1})
+	}
+	for _, t := range []string{"\"abc", "$a := 1", "# comment", "'", "/* open", "if a ==", "for a in", "if a == \"abc", "elif", "if a {", "for a > 0 { if b {", "x := {", "x := [", "foo(", "a := 1 +", ")", "if a == 1 { b := 1 } elif", "if a { } else", "sink s kindmatch", "func f(", "try {", "mutex m {"} {
+		add(t)
+	}
+	for _, s := range c13corpus {
+		step := 1
+		if len(s) > 60 {
+			step = 3
+		}
+		for i := 1; i < len(s); i += step {
+			add(s[:i])
+		}
+	}
+	return res
+}
+
 // texts whose value is built from quoted strings with 1-3 interpolations (top level, in
 // functions, loops, conditionals, try blocks) and one wide literal; `a` comes from the scope.
 func c13sharedTexts(r *rand.Rand, n int) []string {
@@ -1332,11 +1396,13 @@ func c13replayStreams(c *Ctx, bin string) {
 	}
 	c13runStream(c, bin, c13streamJob{Progs: hot, Goroutines: 8, Iterations: c.Pick(4000, 40000), Seed: c.Seed}, "stream")
 	pool := c13streamPool(c.Seed, c.Pick(60, 200))
+	failing := c13failingPool(c.Pick(400, 2000))
+	c.Extra["failing_texts_in_history_pass"] = len(failing)
 	for _, g := range []int{2, 3, 4, 8, 16} {
 		if c.Enough() {
 			return
 		}
-		c13runStream(c, bin, c13streamJob{Progs: pool, Goroutines: g, Iterations: c.Pick(100, 5000), Seed: c.Seed + int64(g)}, "stream")
+		c13runStream(c, bin, c13streamJob{Progs: pool, Failing: failing, Goroutines: g, Iterations: c.Pick(100, 5000), Seed: c.Seed + int64(g)}, "stream")
 	}
 }
 
